@@ -34,6 +34,7 @@ import (
 	"github.com/youchainhq/go-youchain/core"
 	"github.com/youchainhq/go-youchain/core/state"
 	"github.com/youchainhq/go-youchain/core/types"
+	"github.com/youchainhq/go-youchain/crypto"
 	"github.com/youchainhq/go-youchain/params"
 	"github.com/youchainhq/go-youchain/rlp"
 	"github.com/youchainhq/go-youchain/staking"
@@ -262,6 +263,8 @@ func holdingsAt(chain *core.BlockChain, h *types.Header, yp *params.YouParams) (
 
 // ---------------------------------------------------------------- monitor
 
+var emptyCodeHash = crypto.Keccak256Hash(nil)
+
 type txObs struct {
 	tx         *types.Transaction
 	before     *big.Int // Σ balances over the universe before the tx
@@ -269,6 +272,7 @@ type txObs struct {
 	err        error
 	receipt    *types.Receipt
 	gasCharged uint64
+	runsCode   bool // contract creation, or the recipient had code when the tx started
 }
 
 type Monitor struct {
@@ -326,6 +330,13 @@ func (m *Monitor) Hooks() *build.Hooks {
 	return &build.Hooks{
 		BeforeTx: func(i int, tx *types.Transaction, st *state.StateDB) {
 			m.cur = &txObs{tx: tx, before: m.universeSum(st)}
+			// GetCodeHash has no side effect (GetCodeSize on a code-less account records a "not found" database error)
+			if to := tx.To(); to == nil {
+				m.cur.runsCode = true
+			} else if *to != params.StakingModuleAddress {
+				ch := st.GetCodeHash(*to)
+				m.cur.runsCode = ch != (common.Hash{}) && ch != emptyCodeHash
+			}
 		},
 		AfterTx: func(i int, tx *types.Transaction, st *state.StateDB, rc *types.Receipt, err error, g uint64) {
 			m.cur.after = m.universeSum(st)
@@ -465,6 +476,12 @@ func (m *Monitor) Imported(r *chaingen.Run, b *chaingen.BlockCtx) bool {
 			mint.Add(mint, diff)
 			byRefund := new(big.Int).Mul(o.tx.GasPrice(), new(big.Int).SetUint64(o.receipt.GasUsed-o.gasCharged))
 			if o.receipt.GasUsed < o.gasCharged || byRefund.Cmp(diff) != 0 {
+				refundExplains = false
+			}
+			// the refund counter only exists for code run by the EVM (SSTORE clear, SELFDESTRUCT) and the
+			// refund is capped at half of the gas used: a staking transaction, a plain transfer, or a
+			// larger gap is NOT the listed finding
+			if !o.runsCode || o.receipt.GasUsed-o.gasCharged > o.receipt.GasUsed/2 {
 				refundExplains = false
 			}
 			m.feats["gasrefund"] = true
